@@ -219,7 +219,17 @@ func checkDown(r *ev.Run, w *world, shape string) {
 				r.Violate("down/panic/"+ev.Normalize(fmt.Sprint(p)), fmt.Sprintf("queueing %q for %08x panicked: %v", v.name, target, p), detail)
 				continue
 			}
-			res, tasks, err := w.ts.CheckIn(w.nodes[root].id, w.nodes[root].k)
+			// every second fetch also carries a report the first hop sends on its own (request id
+			// 0, as everything a Demon sends unasked): the pipe to a pivot the teamserver does not
+			// know any more broke.  It is about nobody on this chain: the task still arrives
+			var extra []demonwire.Sub
+			if req%2 == 1 {
+				rep := &demonwire.W{}
+				rep.I32(agent.DEMON_PIVOT_SMB_DISCONNECT).I32(1).I32(0x0badf00d)
+				extra = append(extra, demonwire.Sub{Cmd: agent.COMMAND_PIVOT, Body: rep.B})
+				detail["fetch"] = "the first hop's request also carries an unsolicited SMB disconnect report about another pivot"
+			}
+			res, tasks, err := w.ts.CheckIn(w.nodes[root].id, w.nodes[root].k, extra...)
 			r.Eval(1)
 			if res.Panic != nil || err != nil {
 				r.Violate("down/checkin-failed", fmt.Sprintf("first hop's check-in failed: panic=%v err=%v", res.Panic, err), detail)
